@@ -1099,9 +1099,10 @@ func (x *Exec) mapDelete(st *State, t types.Type, m string, key *Val) {
 
 // bridgeLemmas adds instances of the facts that connect bit-vector values and mathematical
 // integers (the solvers do not find them on their own):
-//   bv -> int (unsigned):  0 <= r < 2^n,  int2bv(r) = x,  and order agreement with the other
-//                          converted terms of the same width
-//   int -> bv:             0 <= x < 2^n ==> bv2nat(r) = x
+//
+//	bv -> int (unsigned):  0 <= r < 2^n,  int2bv(r) = x,  and order agreement with the other
+//	                       converted terms of the same width
+//	int -> bv:             0 <= x < 2^n ==> bv2nat(r) = x
 func (x *Exec) bridgeLemmas(from, fs, to, ts string, fsigned bool) {
 	if x.sc.binder > 0 || x.sc.bvMode {
 		return
